@@ -418,11 +418,16 @@ impl IggyConsumer {
         let consumer = self.consumer.clone();
         let stream_id = self.stream_id.clone();
         let topic_id = self.topic_id.clone();
-        let last_consumed_offsets = self.last_consumed_offsets.clone();
+        // The task must not outlive the consumer: it would keep storing this consumer's last consumed
+        // offsets, overwriting what a consumer created later has committed.
+        let last_consumed_offsets = Arc::downgrade(&self.last_consumed_offsets);
         let last_stored_offsets = self.last_stored_offsets.clone();
         tokio::spawn(async move {
             loop {
                 sleep(interval.get_duration()).await;
+                let Some(last_consumed_offsets) = last_consumed_offsets.upgrade() else {
+                    break;
+                };
                 for entry in last_consumed_offsets.iter() {
                     let partition_id = *entry.key();
                     let consumed_offset = entry.load(ORDERING);
